@@ -182,7 +182,8 @@ Record sys := mkSys {
   api : list (name * name);        (* NodeClaims in the API: (claim name, NodePool) *)
   tks : list ticket;               (* in-flight static NodeClaim creations *)
   fresh : name;                    (* next generated NodeClaim name *)
-  crashed : bool                   (* a panic happened *)
+  crashed : bool;                  (* a panic happened *)
+  synced : bool                    (* Cluster.hasSynced: the state has been complete once since the last restart *)
 }.
 
 Inductive sop :=
@@ -194,18 +195,22 @@ Inductive sop :=
 | InfUpdate (nc : name) (deleting : bool)              (* informer: Cluster.UpdateNodeClaim for a claim in the API *)
 | ApiRemove (nc : name)                                (* the NodeClaim object disappears from the API *)
 | InfDelete (nc : name)                                (* informer: Cluster.DeleteNodeClaim after the removal *)
-| SMark (k : kind) (np nc : name).                     (* MarkForDeletion / UnmarkForDeletion / MarkPendingDisruption / deprovisioning *)
+| SMark (k : kind) (np nc : name)                      (* MarkForDeletion / UnmarkForDeletion / MarkPendingDisruption *)
+| DeprovMark (np : name) (replicas : Z) (victims : list name) (* static deprovisioning Reconcile: active - replicas
+                                                          candidates (chosen by the code) are deleted and marked Deleting *)
+| Restart.                                             (* process restart: NodePoolState and in-flight work are lost;
+                                                          the API stays; informers replay through InfUpdate *)
 
 Definition replace_nth {A} (i : nat) (x : A) (l : list A) : list A := firstn i l ++ x :: skipn (S i) l.
 
 Section Protocol.
   Variable L : name -> Z.                (* limits.nodes of each static pool (MaxInt64 when unset) *)
 
-  Definition crash (s : sys) : sys := mkSys (nps s) (api s) (tks s) (fresh s) true.
-  Definition with_nps (s : sys) (n : st) : sys := mkSys n (api s) (tks s) (fresh s) (crashed s).
+  Definition crash (s : sys) : sys := mkSys (nps s) (api s) (tks s) (fresh s) true (synced s).
+  Definition with_nps (s : sys) (n : st) : sys := mkSys n (api s) (tks s) (fresh s) (crashed s) (synced s).
 
   Definition set_tk (s : sys) (i : nat) (t : ticket) : sys :=
-    mkSys (nps s) (api s) (replace_nth i t (tks s)) (fresh s) (crashed s).
+    mkSys (nps s) (api s) (replace_nth i t (tks s)) (fresh s) (crashed s) (synced s).
 
   Fixpoint pool_of (nc : name) (l : list (name * name)) : option name :=
     match l with [] => None | (c, p) :: t => if Nat.eqb nc c then Some p else pool_of nc t end.
@@ -216,26 +221,47 @@ Section Protocol.
     | Panic => crash s
     | Ok n g =>
         if g <? 0 then (if drift then crash (with_nps s n) else with_nps s n)
-        else mkSys n (api s) (tks s ++ repeat (mkT np TGranted) (Z.to_nat g)) (fresh s) (crashed s)
+        else mkSys n (api s) (tks s ++ repeat (mkT np TGranted) (Z.to_nat g)) (fresh s) (crashed s) (synced s)
     end.
+
+  (* Cluster.Synced() as far as NodeClaims go: every NodeClaim of the API has been delivered to the state
+     since the last restart (its name is tracked, hence it sits in one of its pool's sets until Cleanup) *)
+  Definition api_tracked (s : sys) : bool := forallb (fun cp => known (nps s) (snd cp) (fst cp)) (api s).
+
+  (* `!HasSynced() && !Synced(ctx)` -> requeue; hasSynced is sticky *)
+  Definition gate (s : sys) : option sys :=
+    if synced s then Some s
+    else if api_tracked s then Some (mkSys (nps s) (api s) (tks s) (fresh s) (crashed s) true)
+    else None.
+
+  Definition smark (s : sys) (k : kind) (np nc : name) : sys :=
+    match mark k (nps s) np nc with Panic => crash s | Ok n _ => with_nps s n end.
 
   Definition sstep (s : sys) (o : sop) : sys :=
     match o with
     | ProvBegin np r =>
         let '(a, _, p) := counts (nps s) np in
         if Nat.eqb np 0 then s                          (* a NodePool object has a non-empty name *)
-        else if r <=? a + p then s else begin_reserve false s np (r - a)
+        else match gate s with
+             | None => s
+             | Some s1 => if r <=? a + p then s1 else begin_reserve false s1 np (r - a)
+             end
     | DriftBegin np r budget ncands =>
         let '(a, _, p) := counts (nps s) np in
-        if Nat.eqb np 0 || Nat.eqb budget 0 || Nat.eqb ncands 0 then s
-        else if r <? a + p then s
-        else begin_reserve true s np (Z.min (Z.of_nat budget) (Z.of_nat ncands))
+        if Nat.eqb np 0 then s
+        else match gate s with                          (* disruption Controller.Reconcile: cluster.Synced *)
+             | None => s
+             | Some s1 =>
+                 if Nat.eqb budget 0 || Nat.eqb ncands 0 then s1
+                 else if r <? a + p then s1
+                 else begin_reserve true s1 np (Z.min (Z.of_nat budget) (Z.of_nat ncands))
+             end
     | TkCreate i ok =>
         match nth_error (tks s) i with
         | Some (mkT p TGranted) =>
             if ok then
               let s' := set_tk s i (mkT p (TCreated (fresh s))) in
-              mkSys (nps s') ((fresh s, p) :: api s') (tks s') (S (fresh s)) (crashed s')
+              mkSys (nps s') ((fresh s, p) :: api s') (tks s') (S (fresh s)) (crashed s') (synced s')
             else set_tk s i (mkT p TFailed)
         | _ => s
         end
@@ -263,17 +289,22 @@ Section Protocol.
         | None => s
         end
     | ApiRemove nc =>
-        mkSys (nps s) (filter (fun cp => negb (Nat.eqb nc (fst cp))) (api s)) (tks s) (fresh s) (crashed s)
+        mkSys (nps s) (filter (fun cp => negb (Nat.eqb nc (fst cp))) (api s)) (tks s) (fresh s) (crashed s) (synced s)
     | InfDelete nc =>
         match pool_of nc (api s) with
         | Some _ => s                                   (* delete events are delivered after the removal *)
         | None => match cleanup_gen true (nps s) nc with Panic => crash s | Ok n _ => with_nps s n end
         end
-    | SMark k np nc =>
-        match mark k (nps s) np nc with Panic => crash s | Ok n _ => with_nps s n end
+    | SMark k np nc => smark s k np nc
+    | DeprovMark np r victims =>
+        let '(a, _, _) := counts (nps s) np in
+        if Nat.eqb np 0 then s
+        else if a - r <=? 0 then s
+        else fold_left (fun s' c => smark s' KDeleting np c) (firstn (Z.to_nat (a - r)) victims) s
+    | Restart => mkSys st0 (api s) [] (fresh s) (crashed s) false
     end.
 
-  Definition sys0 : sys := mkSys st0 [] [] 1%nat false.
+  Definition sys0 : sys := mkSys st0 [] [] 1%nat false false.
   Definition srun (ops : list sop) : sys := fold_left sstep ops sys0.
 
   (* observables *)
@@ -282,6 +313,33 @@ Section Protocol.
   Definition granted_count (s : sys) (np : name) : Z :=
     Z.of_nat (List.length (filter (fun t => Nat.eqb (tpool t) np && match tst t with TGranted => true | _ => false end) (tks s))).
 End Protocol.
+
+(* ---- whole reconciles on a quiescent pool (nothing in flight): what the NodePoolState goes through ---- *)
+
+(* static provisioning Reconcile + CreateNodeClaims with every create succeeding; [names] are the
+   generated NodeClaim names *)
+Definition prov_reconcile (s : st) (np : name) (l r : Z) (names : list name) : st :=
+  let '(a, _, p) := counts s np in
+  if r <=? a + p then s
+  else match reserve s np l (r - a) with
+       | Panic => s
+       | Ok s1 g =>
+           fold_left (fun s' c =>
+                        match update_nc s' np c false with
+                        | Ok s2 _ => match release_gen true s2 np 1 with Ok s3 _ => s3 | Panic => s2 end
+                        | Panic => s'
+                        end) (firstn (Z.to_nat g) names) s1
+       end.
+
+(* static deprovisioning Reconcile (the victims it picks are marked Deleting) followed by their termination
+   (Cluster.DeleteNodeClaim -> Cleanup) *)
+Definition deprov_reconcile (s : st) (np : name) (r : Z) (victims : list name) : st :=
+  let '(a, _, _) := counts s np in
+  if a - r <=? 0 then s
+  else
+    let vs := firstn (Z.to_nat (a - r)) victims in
+    let s1 := fold_left (fun s' c => match mark KDeleting s' np c with Ok s2 _ => s2 | Panic => s' end) vs s in
+    fold_left (fun s' c => match cleanup_gen true s' c with Ok s2 _ => s2 | Panic => s' end) vs s1.
 
 (* ------------------------------------------------------------------ part B: resource limits *)
 
